@@ -756,8 +756,10 @@ class RawAlgorithmsMixIn:
 
     @classmethod
     def _expit(cls, x_data, out=None):
+        # expit'(x) = expit(x) expit(-x): as a product, b - b*b cancels for negative x
         b_data = cls._reciprocal(_plus_const(cls._exp(x_data), 1))
-        fprime_data = b_data - cls._square(b_data)
+        c_data = cls._reciprocal(_plus_const(cls._exp(-x_data), 1))
+        fprime_data = cls._mul(b_data, c_data)
         return _black_f_white_fprime(
                 scipy.special.expit, fprime_data, x_data, out=out)
 
@@ -765,8 +767,10 @@ class RawAlgorithmsMixIn:
     def _pb_expit(cls, ybar_data, x_data, y_data, out = None):
         if out is None:
             raise NotImplementedError('should implement that')
+        # expit'(x) = expit(x) expit(-x): as a product, b - b*b cancels for negative x
         b_data = cls._reciprocal(_plus_const(cls._exp(x_data), 1))
-        fprime_data = b_data - cls._square(b_data)
+        c_data = cls._reciprocal(_plus_const(cls._exp(-x_data), 1))
+        fprime_data = cls._mul(b_data, c_data)
         cls._amul(ybar_data, fprime_data, out=out)
 
     @classmethod
